@@ -22,6 +22,8 @@ func TestC05(t *testing.T) {
 	evmx.RunWorkload(m, "etx", m.N(2500, 100000), evmx.GenOpts{Focus: "etx"}, evmx.OracleC05)
 	// sends inside frames that fail afterwards (the block's outbound set must not keep them)
 	evmx.RunWorkload(m, "revert", m.N(2500, 100000), evmx.GenOpts{Focus: "revert"}, evmx.OracleC05)
+	// calls into the lockup precompile (claims, unwraps, the same unwrap twice in one transaction)
+	evmx.RunWorkload(m, "lockup", m.N(1500, 60000), evmx.GenOpts{Focus: "lockup"}, evmx.OracleC05)
 	m.Floor(1500, 20)
-	m.Need("TOP-EXT:refused-with-value:dest-ineligible", "outbound-set:top-level-ext")
+	m.Need("TOP-EXT:refused-with-value:dest-ineligible", "outbound-set:top-level-ext", "LOCKUP-UNWRAP:second-success-by-one-owner-in-one-transaction")
 }
